@@ -584,7 +584,7 @@ fn check_quote(c: &QuoteCase, ctx: &mut Ctx) {
             if fresh {
                 ctx.label("valid_fresh");
                 if !got {
-                    ctx.fail(
+                    ctx.precondition_failed(
                         "honest_quote_rejected",
                         format!("a quote issued and signed by node key {:?} over its own fields does not verify for that node; muts={:?}", t.key, c.muts),
                     );
@@ -826,7 +826,7 @@ fn check_proof(c: &ProofCase, ctx: &mut Ctx) {
             if honest_shape {
                 ctx.label("honest_shape");
                 if !got {
-                    ctx.fail("honest_proof_rejected", format!("proof of {n} fresh honest quotes from distinct nodes for one content does not verify for payee {verifier}"));
+                    ctx.precondition_failed("honest_proof_rejected", format!("proof of {n} fresh honest quotes from distinct nodes for one content does not verify for payee {verifier}"));
                 }
             } else {
                 ctx.label("valid_but_unusual_shape(converse_not_asserted)");
